@@ -315,4 +315,82 @@ theorem short_host_witness :
     r.2 = "at 0123456789ab.0123456789ab.example.comxampl0123456789ab.example.com.com".toList := by
   decide
 
+/-! ### width-preserving mode and calls that raise
+
+`runHistoryW` mixes ordinary calls with `width=True` calls; a width call may RAISE (`none`: the spec is not emitted)
+after the database entry has been made. -/
+
+/-- state reached by a history that mixes both modes (`(call, width)`) -/
+def afterW (E : Env) (cfg : Cfg) (h : List (Call × Bool)) : St := (runHistoryW E cfg (initSt E cfg) h).1
+
+/-- the database invariant — hence `db_functional`, both injectivity statements and `mapping_exact`, which are
+consequences of `Inv` and `Ext` alone — survives width-mode calls and calls that raised half-way: a fault on one
+line never un-does, duplicates or re-numbers an entry -/
+theorem history_invariant_width (E : Env) (cfg : Cfg) (hE : HexDigest E) (h1 h2 : List (Call × Bool)) :
+    Inv E cfg (afterW E cfg (h1 ++ h2)) ∧ Ext (afterW E cfg h1) (afterW E cfg (h1 ++ h2)) := by
+  have happ : ∀ (a b : List (Call × Bool)) (st : St),
+      (runHistoryW E cfg st (a ++ b)).1 = (runHistoryW E cfg (runHistoryW E cfg st a).1 b).1 := by
+    intro a
+    induction a with
+    | nil => intro b st; rfl
+    | cons c cs ih => intro b st; obtain ⟨c, w⟩ := c; simp only [List.cons_append, runHistoryW]; exact ih _ _
+  have i1 := (runHistoryW_pres E cfg hE h1 _ (initSt_inv E cfg)).1
+  unfold afterW
+  rw [happ]
+  exact runHistoryW_pres E cfg hE h2 _ i1
+
+/-- injectivity is about original STRINGS: after any mixed history two entries whose originals differ as strings
+(`DB01.d` / `db01.d` included — nothing is case-folded) have different substitutes, and conversely -/
+theorem db_injective_host_width (E : Env) (cfg : Cfg) (hE : HexDigest E) (h : List (Call × Bool)) (p q : Str × Str)
+    (hp : p ∈ (afterW E cfg h).hnDb) (hq : q ∈ (afterW E cfg h).hnDb) :
+    (p.2 ≠ q.2 → p.1 ≠ q.1) ∧ (p.1 ≠ q.1 → p.2 ≠ q.2) := by
+  have inv := (history_invariant_width E cfg hE [] h).1
+  simp only [List.nil_append] at inv
+  have hk : ((afterW E cfg h).hnDb.map Prod.fst).Nodup := by rw [inv.hnKeys]; exact hostKeys_nodup E cfg hE _
+  constructor
+  · intro hne e; exact hne (by rw [nodup_pair _ hk p q hp hq e])
+  · intro hne e; exact hne (by rw [nodup_pair_snd _ inv.hnVals p q hp hq e])
+
+/-- three spellings of one host on a line, then a width call that raises on an address at the end of the line:
+three entries with three substitutes; the raised call still made its database entry -/
+example :
+    let E : Env := ⟨fun l => if l = "x 1.2.3.4".toList then ["1.2.3.4".toList] else [],
+      fun l => if l = "hosts".toList then ["DB01.d".toList, "db01.d".toList, "Db01.d".toList] else [],
+      fun _ => [], fun _ => false, fun _ => [], fun _ => false, fun _ => "0123456789ab".toList, id, {}⟩
+    let cfg : Cfg := ⟨"zq.d".toList, true, false, true, false, [], []⟩
+    let r := runHistoryW E cfg (initSt E cfg) [(⟨[], false, none, ["hosts".toList]⟩, false), (⟨[], false, none, ["x 1.2.3.4".toList]⟩, true)]
+    hostMapping r.1 = [("zq.d".toList, "0123456789ab.example.com".toList), ("DB01.d".toList, "host2.example.com".toList),
+      ("db01.d".toList, "host3.example.com".toList), ("Db01.d".toList, "host4.example.com".toList)] ∧
+    r.2 = [some ["hosts".toList], none] ∧ ipMapping r.1 = [("1.2.3.4".toList, "10.230.230.1".toList)] := by
+  decide
+
+/-- whatever `_sub_ip_keep_width` returns is made from the line in which EVERY occurrence has been replaced: blanks
+inserted at one place or characters removed at one place — never the raw line -/
+theorem keepWidth_from_replaced (line ip new out : Str) (h : keepWidth line ip new = some out) :
+    ∃ j n, out = (replace ip new line).take j ++ List.replicate n ' ' ++ (replace ip new line).drop j ∨
+           out = (replace ip new line).take j ++ (replace ip new line).drop (j + n) := by
+  unfold keepWidth at h
+  split at h
+  · simp only at h
+    split at h
+    · cases h
+    · split at h
+      · cases h
+      · cases h; exact ⟨_, _, Or.inl rfl⟩
+  · split at h
+    · simp only at h
+      split at h
+      · cases h
+      · split at h
+        · cases h
+        · cases h; exact ⟨_, _, Or.inr rfl⟩
+    · cases h; exact ⟨0, 0, Or.inl (by simp)⟩
+
+
+/-- an address that is the last thing on the line and shorter or longer than its substitute: the parser raises -/
+example : keepWidth "x 1.2.3.4".toList "1.2.3.4".toList "10.230.230.1".toList = none ∧
+    keepWidth "192.168.100.200".toList "192.168.100.200".toList "10.230.230.1".toList = none ∧
+    keepWidth "1.2.3.4:22      x".toList "1.2.3.4".toList "10.230.230.1".toList = some "10.230.230.1:22 x".toList := by
+  decide
+
 end IV.CleanState
